@@ -392,7 +392,7 @@ func TestC01(t *testing.T) {
 	if behav.Thorough() {
 		perBeh = 6 // thorough: the large families also rotate (6 of 36 profiles per behaviour)
 	}
-	if (!behav.Thorough() || family == "binary" || family == "nary") && family != "shiftflip" {
+	if family != "shiftflip" {
 		for _, in := range []string{"edge", "array", "thresh", "comb", "runs", "runthresh", "longruns", "full", "mixed"} {
 			for _, ks := range gamma.KeySets {
 				all = append(all, profSel{inner: in, keyset: ks})
